@@ -40,6 +40,14 @@ def leaves_block(stmts) -> bool:
         return True
     if isinstance(last, ast.If):
         return leaves_block(last.body) and leaves_block(last.orelse)
+    if isinstance(last, ast.Try):
+        # every way out of the try statement leaves: finally leaves, or (body [+ else] and every handler leave)
+        if last.finalbody and leaves_block(last.finalbody):
+            return True
+        body_leaves = leaves_block(last.body) or (bool(last.orelse) and leaves_block(last.orelse))
+        return body_leaves and all(leaves_block(h.body) for h in last.handlers)
+    if isinstance(last, ast.With):
+        return leaves_block(last.body)
     return False
 
 
